@@ -104,7 +104,7 @@ class Verifier:
             smt2_ = s.to_smt2()
             if 'lambda' not in smt2_ and '(intersection ' not in smt2_ and '(union ' not in smt2_:
                 proc = start_cvc5(smt2_, max(10, self.timeout_ms // 1000) * 4)
-            s.set('timeout', min(self.timeout_ms, 2500))
+            s.set('timeout', min(self.timeout_ms, max(2500, self.timeout_ms // 8)))
         r = s.check()
         dt = time.time() - t0
         if proc is not None:
